@@ -218,9 +218,19 @@ Definition c02_rewrite_class (c : c02_case) : N :=
               if ast_eqb a' a then 0 else if ast_exists is_ident a' then 1 else 2
   end%N.
 
-(* the hypotheses of theorem optimize_sound_value hold for the dumped AST: side_ok, and the
-   implementation's optimizer agrees with the strict one (no computed closure constant is kept) *)
+(* the hypothesis of theorem C02_optimize_sound_cfg on the program holds for the dumped AST: side_ok
+   (first-order constants; a closure literal's own name is not among its OuterIdents) *)
 Definition c02_theorem_applies (c : c02_case) : bool :=
+  let '(_, _, A, _, _, _) := c in
+  match A with
+  | None => false
+  | Some a => side_ok a
+  end.
+
+(* what the previous version of the theorem needed in addition: the implementation's optimizer agrees
+   with the strict one on this program (no computed constant containing a closure is kept).  Counted
+   only to show what the general theorem gained. *)
+Definition c02_strict_coincides (c : c02_case) : bool :=
   let '(_, _, A, _, _, _) := c in
   match A with
   | None => false
@@ -237,7 +247,8 @@ Definition c02_unfollowable (c : c02_case) : bool :=
 (* [M compared; M unsupported; M out of fuel; M laziness; cases the optimizer model cannot follow;
     S compared (both optimizer settings agree with the reference); S unsupported; S out of fuel; S laziness;
     S excluded tuples (redeclaration); cases rewritten with a surviving variable; cases rewritten to a
-    variable-free tree; cases where the hypotheses of optimize_sound_value hold] *)
+    variable-free tree; cases inside the hypotheses of C02_optimize_sound_cfg (side_ok); cases that also
+    satisfied the side condition of the previous theorem (strict = non-strict optimizer)] *)
 Definition c02_stats (cases : list c02_case) : list N :=
   let m := flat_map c02_m_verdicts cases in
   let s := c01_stats cases in
@@ -246,7 +257,8 @@ Definition c02_stats (cases : list c02_case) : list N :=
     nth 4 s 0%N; nth 5 s 0%N; nth 6 s 0%N; nth 7 s 0%N; nth 8 s 0%N;
     count (fun c => N.eqb (c02_rewrite_class c) 1) cases;
     count (fun c => N.eqb (c02_rewrite_class c) 2) cases;
-    count c02_theorem_applies cases ].
+    count c02_theorem_applies cases;
+    count c02_strict_coincides cases ].
 
 (* for replays: specification outcome and the outcome of the optimized program in the model *)
 Definition c02_explain (c : c02_case) : list (explained * explained) :=
